@@ -109,7 +109,7 @@ func Catalogue(tier string) []core.System {
 	if tier == "thorough" {
 		l = append(l,
 			ska("ska-full", false, toStd, 2, evStart, evStop, evAdv, evReply(1, "match", 0), evReply(1, "stale", 1), evReply(1, "loop", 0), evAct(1)),
-			mgr("mgr-two", 2, 2, true, toStd, 2, evAdv, evReply(1, "match", 0), evReply(2, "match", 1), evReply(2, "stale", 0), evAct(2), evUnreg(2), evReg(2), evStop, evStart),
+			mgr("mgr-two", 2, 2, true, toStd, 2, evAdv, evReply(1, "match", 0), evReply(2, "match", 0), evReply(2, "stale", 0), evAct(1), evAct(2), evUnreg(2), evReg(2)),
 			mgr("mgr-one1", 1, 1, true, toStd, 1, evAdv, evReply(1, "match", 0), evReply(1, "loop", 0), evAct(1), evReg(1), evUnreg(1)),
 		)
 	}
@@ -142,8 +142,18 @@ func ChainCatalogue() []core.System {
 	}
 }
 
+// ShapeSystems: the configurations the counterexamples of the implementation-shaped design spec
+// (specs/KeepAlive/MC_shape_*_orig.cfg) are replayed on; same constants as those cfg files.
+func ShapeSystems() []core.System {
+	return []core.System{
+		ska("shape-ska", false, toStd, 2),
+		mgr("shape-mgr", 2, 1, true, toStd, 2),
+		mgr("shape-mgrlong", 1, 1, true, toLong, 2),
+	}
+}
+
 func find(name string) core.System {
-	for _, s := range append(append(Catalogue("quick"), Catalogue("thorough")...), ChainCatalogue()...) {
+	for _, s := range append(append(append(Catalogue("quick"), Catalogue("thorough")...), ChainCatalogue()...), ShapeSystems()...) {
 		if s.Name() == name {
 			return s
 		}
@@ -183,7 +193,7 @@ func jobs(tier string) []job {
 	}
 	nchains, per := 8, 4
 	if tier == "thorough" {
-		nchains, per = 60, 10
+		nchains, per = 50, 10
 	}
 	for _, s := range ChainCatalogue() {
 		for c := 0; c < nchains; c += per {
@@ -198,7 +208,7 @@ func jobs(tier string) []job {
 
 func chainLen(tier string) int {
 	if tier == "thorough" {
-		return 400
+		return 300
 	}
 	return 150
 }
@@ -230,7 +240,7 @@ func runJob(t *testing.T, j job, tier string, seed int64, bundle *core.Bundle, s
 	case j.table != nil:
 		maxNodes := 3000
 		if tier == "thorough" {
-			maxNodes = 20000
+			maxNodes = 8000
 		}
 		if v := os.Getenv("VERIF_MAXNODES"); v != "" {
 			fmt.Sscan(v, &maxNodes)
